@@ -63,7 +63,7 @@ func init() {
 	cfg := histCfg{prop: "C18", checkKeys: true}
 	Registry["C18"] = func() *Check {
 		return histCheck("C18", cfg, c18Gen, 3,
-			"one run = one seeded history of 3-25 operations from {delete, replace, upsert, insert}, every one addressed through a selection freshly obtained by Find from the root (containers, whole lists, list entries by key incl. first/last/only entry, nested lists, delete-then-reinsert of a key, replace by an entry with fewer leaves), on slice-backed (nodeutil.Node sliceAsList, Reflect.listSlice) and map-backed lists of every store kind. Fault-free: after every operation the store's Go value walked directly equals the model (addressed subtree gone, siblings/other entries/ancestors untouched, replace leaves exactly the supplied content), no list holds two entries with equal keys, every entry is returned by Find under the key its key leaves hold and every removed key and removed container Finds to nil (every present container is found), and the library export equals the store. Fault-injecting: one error/refuse/error-after-effect at a seeded callback inside one operation; nothing outside the footprint changes, every leaf inside is old or new, keys stay unique among completely created entries. distinct_nontrivial as for C09",
+			"one run = one seeded history of 3-25 operations from {delete, replace, upsert, insert, sweep, batch-delete, list-session}; the first four are addressed through a selection freshly obtained by Find from the root (containers, whole lists, list entries by key incl. first/last/only entry, nested lists, delete-then-reinsert of a key, replace by an entry with fewer leaves); sweep walks a list once and deletes several entries through the walk's selections; batch-delete selects several containers (none inside another) first and deletes them in turn; list-session keeps one list selection across a walk, deletes through the walk's selections, an upsert of the same keys through the list selection and a second walk, which must meet exactly the entries the list holds. Slice-backed (nodeutil.Node sliceAsList, Reflect.listSlice) and map-backed lists of every store kind (incl. hand-written types with accessor methods, nodeutil.Node with default options, pass-through hook variants); a third of the schemas have choices (also in lists), a third of the lists are ordered-by user; parts of compound keys run into one another when glued together. Fault-free: after every operation the store's Go value walked directly equals the model (addressed subtree gone, siblings/other entries/ancestors untouched, replace leaves exactly the supplied content), no list holds two entries with equal keys, every entry is returned by Find under the key its key leaves hold and every removed key and removed container Finds to nil (every present container is found), and the library export equals the store. Fault-injecting: one error/refuse/error-after-effect at a seeded callback inside one operation; nothing outside the footprint changes, every leaf inside is old or new, keys stay unique among completely created entries. distinct_nontrivial as for C09",
 			[]string{
 				"selections obtained before a structural change made through another selection are not part of any oracle (the library nowhere promises they survive)",
 				"an entry whose key leaf was never written because the node refused the write is the node's failure, not a duplicate key",
